@@ -51,6 +51,27 @@ def gen(rng, tier):
             for fam in FAMS:
                 cases.append("ident %s %s" % (fam, hx(b[:16])))
                 cases.append("bytes %s %s | ehdr" % (fam, hx(b)))
+        # structured multi-byte corruptions: every permutation of the four magic bytes, every pair / triple / all four
+        # bytes flipped by the SAME mask (differences that cancel under xor, sum or or-of-differences shortcuts), a
+        # case-folded magic
+        import itertools
+        magic = bytes(data[:4])
+        alts = [bytes(p) for p in itertools.permutations(magic) if bytes(p) != magic]
+        for r in (2, 3, 4):
+            for idx in itertools.combinations(range(4), r):
+                for mask in (0x01, 0x20, 0x80, 0xff):
+                    m2 = bytearray(magic)
+                    for i in idx:
+                        m2[i] ^= mask
+                    alts.append(bytes(m2))
+        alts += [b"\x7felf", b"\x7fElf", b"\x7fELf"]
+        for k, m2 in enumerate(alts):
+            b = bytearray(data)
+            b[:4] = m2
+            fam = FAMS[k % len(FAMS)]
+            cases.append("ident %s %s" % (fam, hx(b[:16])))
+            if k % 4 == 0:
+                cases.append("bytes %s %s | ehdr" % (fam, hx(b)))
         # several defects at once: precedence magic > version > class > data
         for _ in range(40):
             b = bytearray(data)
